@@ -126,6 +126,20 @@ def check_bounded_read_loop(R, f, rid_prefix, loop, counter, buff_names, require
                 det = '' if okc else 'after an empty read the decoder can finish normally, yield or read again instead of raising'
             R.ob(rid_prefix + 'c', f, tn.ast, okc, text=f'if {short(tn.ast)} [{lab}-edge = empty read]', detail=det,
                  why='a stream that ends early must end the body (Content-Length) / be rejected (chunked)')
+        # the loop is left only by its condition or on an empty read (a *short* read is not the end of the stream)
+        for b in [n for n in g.nodes if n.kind == 'stmt' and isinstance(n.ast, (ast.Break, ast.Return)) and T._inside(n.ast, loop.body)
+                  and T.loops_of(n.ast) and T.loops_of(n.ast)[0] is loop]:
+            okb = any(g.edge_dominates(tn, lab, b) for (tn, lab) in tests)
+            R.ob(rid_prefix + 'c', f, b.ast, okb, text=f'`{short(b.ast)}` leaves the read loop only after an empty read', detail='' if okb else
+                 'the read loop is left on a condition other than an empty read (e.g. a read shorter than requested): the rest of the declared '
+                 'body stays unread in the stream and the application sees a truncated body',
+                 why='the body is byte-exact however the stream fragments its reads, including short reads', key_extra='exit')
+        # each part is handed over in the iteration that read it
+        part_yields = [y for y in ys if var in names_loaded(y.ast)]
+        R.ob(rid_prefix + 'c', f, c, bool(part_yields), text=f'the part read is yielded in the same loop iteration', detail='' if part_yields else
+             f'`{var}` is not yielded inside the read loop (collected and handed over later): the consumer cannot check size limits or spool '
+             f'per buffer, and a whole chunk / body is held in memory first',
+             why='parts are delivered buffer by buffer', key_extra='handover')
         # the yield of the part must be guarded by the non-empty edge
         for y in ys:
             if var in names_loaded(y.ast):
@@ -149,8 +163,9 @@ def check(P, R):
         counter = T.counter_of_while(loop)
         if counter is None:
             R.ob('C04.a', f, loop.test, False, text=f'while {src(loop.test)}',
-                 detail='loop condition is not `remaining > 0`',
-                 why='with any other condition a part longer than expected or an exact hit is mishandled')
+                 detail='the read loop is not conditioned on `remaining > 0`: a negative remainder (Content-Length absent: -1) is truthy / non-zero, '
+                        'so the loop runs and read(-1) drains the whole stream',
+                 why='the stream is never read beyond Content-Length; without a Content-Length the body is empty')
             continue
         # the counter starts as the content_length parameter
         hn = T.loop_head(f.cfg, loop)
@@ -174,7 +189,8 @@ def check(P, R):
                 kind = 'len(received)' if (amount is not None and isinstance(amount, ast.Call)
                                            and isinstance(amount.func, ast.Name) and amount.func.id == 'len') else 'other'
                 sib.append((sf, st, kind))
-    R.require(len(sib) >= 3, f'sibling read loops: {len(sib)} decrement sites found, 3 on the pinned tree')
+    if not any(o['verdict'] == 'violated' for o in R.obligations):
+        R.require(len(sib) >= 3, f'sibling read loops: {len(sib)} decrement sites found, 3 on the pinned tree')
     majority = sum(1 for x in sib if x[2] == 'len(received)')
     for (sf, st, kind) in sib:
         if sf is not f:
@@ -211,12 +227,23 @@ def check_body_read(P, R):
     R.ob('C04.d', f, loop, kw_ok, text='content_length forwarded to the bounded reader',
          detail='' if kw_ok else 'the Content-Length reader is not given content_length=content_length')
 
-    # name of the buffer: the object returned
+    # the stream callable is only handed to the part iterators, never called here
+    direct = [c for c in read_param_calls(f) if c.func.id == f.params[0]]
+    for c in direct:
+        R.ob('C04.d', f, c, False, detail=
+             f'_body_read calls the stream itself (`{short(c)}`): a single read(n) may return fewer than n bytes, so the body is truncated to the '
+             f'first fragment whenever the stream does a short read; only the bounded loops of _iter_body / _iter_chunked may read',
+             why='the body is byte-exact under any read fragmentation')
+    # name of the buffer: the object the parts are written to
+    wr = [c for st in loop.body for c in walk_shallow(st) if isinstance(c, ast.Call) and call_attr(c) == 'write' and c.args
+          and isinstance(c.args[0], ast.Name) and c.args[0].id == part and isinstance(c.func.value, ast.Name)]
+    R.require(wr, f'{f.fq}: no <buffer>.write({part}) in the part loop')
+    body = wr[0].func.value.id
     rets = [n for n in walk_shallow(f.node) if isinstance(n, ast.Return)]
-    bufnames = {r.value.id for r in rets if isinstance(r.value, ast.Name)}
-    R.require(len(bufnames) == 1 and len(rets) >= 1 and all(isinstance(r.value, ast.Name) for r in rets),
-              f'{f.fq}: cannot identify the buffer (returns: {[short(r) for r in rets]})')
-    body = bufnames.pop()
+    for r in rets:
+        okr = isinstance(r.value, ast.Name) and r.value.id == body
+        R.ob('C04.d', f, r, okr, detail='' if okr else f'`{short(r)}` does not return the buffer `{body}` accumulated by the part loop',
+             why='what is presented to the application is exactly what the bounded loop accumulated', key_extra='returns-buffer')
 
     # writes to the buffer
     writes = [c for c in walk_shallow(f.node) if isinstance(c, ast.Call) and isinstance(c.func, ast.Attribute)
